@@ -32,7 +32,8 @@ ASSUMPTIONS = ["pvm/ref/ofwire.py states the OpenFlow 1.0.0 layouts correctly",
                "(header, length multiple of 8, NXM header), not field by "
                "field against an independent specification"]
 REQUIRED = ["objects", "layout_compared", "roundtrips", "table_dispatch",
-            "action_lists", "stats_bodies", "nicira_objects"]
+            "action_lists", "stats_bodies", "nicira_objects",
+            "nx_layouts_checked"]
 TIMEOUT = {"quick": 900, "thorough": 7200}
 
 # wildcard bit constants (OpenFlow 1.0 spec)
